@@ -411,6 +411,10 @@ def evaluate(vec, r, props, style=0, morph_from=None, huge=False, chan_zero=None
                     out.append(("C14:different_content_equal", _where(b, m) + (" (new samples are 0.0)" if zero_new else "")))
                     break
                 if not zero_new:
+                    dup = _compare_with_one_label(kind, fmt, b, m, r, style)
+                    if dup:
+                        out.append((dup, _where(b, m) + " (all items of both blocks carry one and the same label)"))
+                        break
                     late = _compare_after_edit(kind, fmt, b, m, base, r, style)
                     if late:
                         out.append((late, _where(b, m) + " (the block had been compared before and was then edited in place)"))
@@ -473,6 +477,44 @@ def _edit_towards(dst, fa, fb, depth=0):
                 return False
             setattr(dst, name, y)
     return True
+
+
+def _item_labels(b):
+    for key in ("tracks", "signals", "platforms", "events"):
+        if key in b:
+            return [it.get("label") for it in b[key]]
+    return None
+
+
+def _compare_with_one_label(kind, fmt, b, m, r, style):
+    """Labels need not be unique.  Both blocks are built as usual, then every item of both is given one
+    and the same label through the public attribute; they differ somewhere else (the pair is skipped
+    when the mutant differs in a label or in the number of items), so they must still be unequal, and a
+    relabelled twin must still be equal."""
+    la, lb = _item_labels(b), _item_labels(m)
+    if not la or la != lb or len(la) < 2 or None in la:
+        return None
+    try:
+        x = ab.gamma(kind, fmt, b, Values(r, specials=False), style)
+        y = ab.gamma(kind, fmt, m, Values(r, specials=False), style)
+        t = ab.gamma(kind, fmt, b, Values(r, specials=False), style)
+        for obj in (x, y, t):
+            items = ab.items_of(kind, obj)
+            if len(items) != len(la) or not all(hasattr(it, "label") for it in items):
+                return None
+            for it in items:
+                it.label = "same label"
+    except Exception:  # noqa: BLE001
+        return None
+    try:
+        PAIRS[0] += 1
+        if bool(x == y) or bool(y == x):
+            return "C14:different_content_equal"
+        if not (bool(x == t) and bool(t == x)):
+            return "C14:equal_content_unequal"
+    except Exception:  # noqa: BLE001
+        return "C14:comparison_raises"
+    return None
 
 
 def _compare_after_edit(kind, fmt, b, m, used, r, style):
